@@ -62,6 +62,27 @@ OptionalDateTimeByte = construct.ExprAdapter(
     encoder=lambda obj, ctx: obj if obj is not None else 0xFF,
 )
 
+def _to_datetime(ctx: Any) -> datetime.datetime:
+    """Create datetime from parsed COSEM date-time fields."""
+    if ctx.hour is None or ctx.minute is None or ctx.second is None:
+        # "not specified" (0xFF) time components can not be represented as datetime
+        raise ValueError("Date-time with unspecified hour, minute or second.")
+    return datetime.datetime(
+        ctx.year,
+        ctx.month,
+        ctx.day_of_month,
+        ctx.hour,
+        ctx.minute,
+        ctx.second,
+        ctx.hundredths_of_second * 10000
+        if ctx.hundredths_of_second is not None
+        else 0,
+        datetime.timezone(datetime.timedelta(minutes=ctx.deviation * -1))
+        if ctx.deviation is not None
+        else None,
+    )
+
+
 # See COSEM blue Book section 4.1.6.1 Date and time formats
 DateTime = construct.Struct(
     construct.Const(0x0C, construct.Int8ub),  # expect length 12
@@ -119,23 +140,7 @@ DateTime = construct.Struct(
         ),
     ),
     construct.If(construct.this.clock_status_byte == 0xFF, construct.Int8ub),
-    "datetime"
-    / construct.Computed(
-        lambda ctx: datetime.datetime(
-            ctx.year,
-            ctx.month,
-            ctx.day_of_month,
-            ctx.hour,
-            ctx.minute,
-            ctx.second,
-            ctx.hundredths_of_second * 10000
-            if ctx.hundredths_of_second is not None
-            else 0,
-            datetime.timezone(datetime.timedelta(minutes=ctx.deviation * -1))
-            if ctx.deviation is not None
-            else None,
-        )
-    ),
+    "datetime" / construct.Computed(lambda ctx: _to_datetime(ctx)),
 )
 
 NullData: construct.Struct = construct.Struct(
